@@ -33,7 +33,7 @@ import (
 	"verifharness/vhlib"
 )
 
-const caseImports = "From SigM Require Import Base SortCmd Sched SchedCheck.\nOpen Scope Z_scope.\nOpen Scope N_scope.\n"
+const caseImports = "From SigM Require Import Base SortCmd Sched SchedCheck SortIdx SortIdxCheck.\nOpen Scope Z_scope.\nOpen Scope N_scope.\n"
 
 func coqNat(n int) string { return strconv.Itoa(n) + "%nat" }
 
@@ -626,7 +626,6 @@ func (v val) microBig() *big.Int {
 	return big.NewInt(v.Micro)
 }
 
-
 func (v val) coq() string {
 	switch v.Kind {
 	case "f":
@@ -1209,7 +1208,8 @@ type querySpec struct {
 	Text  string `json:"text"`
 	Size  uint64 `json:"size"`
 	From  uint64 `json:"from"`
-	Pages int    `json:"pages"` // >0: page with from = 0, size, 2*size, … (Pages requests)
+	Pages int    `json:"pages"`           // >0: page with from = 0, size, 2*size, … (Pages requests)
+	MinID int    `json:"minid,omitempty"` // the query text carries the filter id>=MinID
 }
 
 type scenario struct {
@@ -1217,6 +1217,10 @@ type scenario struct {
 	Index    string      `json:"index"`
 	Steps    []step      `json:"steps"`
 	Queries  []querySpec `json:"queries"`
+	// sort-index route (sortidx.go): sort columns configured for the index before ingest; the
+	// worker then waits for the .srt files after every rotation and drains the real reader
+	SortCols  []string `json:"sortcols,omitempty"`
+	DrainSeed uint64   `json:"drainseed,omitempty"`
 }
 
 type row struct {
@@ -1231,8 +1235,10 @@ type queryResult struct {
 }
 
 type workerOut struct {
-	Err     string        `json:"err"`
-	Results []queryResult `json:"results"`
+	Err      string        `json:"err"`
+	Results  []queryResult `json:"results"`
+	Srt      []srtFile     `json:"srt,omitempty"`
+	Searcher []searcherRun `json:"searcher,omitempty"`
 }
 
 const baseTS = uint64(1700000000000)
@@ -1350,6 +1356,14 @@ func sortKeys(name string) []ele {
 		return []ele{{false, "auto"}}
 	case "g_asc,n_desc":
 		return []ele{{true, "auto"}, {false, "auto"}}
+	case "g_asc,id_desc":
+		return []ele{{true, "auto"}, {false, "num"}}
+	case "g_desc,id_asc":
+		return []ele{{false, "auto"}, {true, "auto"}}
+	case "g1_asc":
+		return []ele{{true, "num"}}
+	case "g1_desc":
+		return []ele{{false, "auto"}}
 	}
 	return nil
 }
@@ -1364,6 +1378,10 @@ func keyVals(name string, ev event) []val {
 		return []val{n}
 	case "g_asc,n_desc":
 		return []val{g, n}
+	case "g_asc,id_desc", "g_desc,id_asc":
+		return []val{g, {Kind: "i", Micro: int64(ev.ID) * 1000000}}
+	case "g1_asc", "g1_desc":
+		return []val{g}
 	case "num_asc", "num_desc", "auto_asc", "auto_desc":
 		return []val{v}
 	case "str_asc", "str_desc", "autos_asc":
@@ -1435,10 +1453,53 @@ func judgeScenario(sum *vhlib.Summary, sc scenario, out workerOut, knownClass st
 			seen[rw.ID] = true
 		}
 		kind := strings.SplitN(q.Name, ":", 2)[0]
+		if bad && len(sc.SortCols) > 0 && (kind == "sort" || kind == "sortpage") {
+			// the sort-index route (own classes, see notes): rows served from the index carry
+			// timestamp 0 (known, open); before fix baa49ac the fall-back sub-searcher
+			// (segments WITHOUT an index) reloaded every segment on its first fetch, so each
+			// record of an indexed segment came a second time (regression class)
+			zero, dup, other := 0, 0, false
+			cnt := map[int]int{}
+			for _, rw := range rows {
+				e, ok := byID[rw.ID]
+				if !ok || (e.TS != rw.TS && rw.TS != 0) {
+					other = true
+					continue
+				}
+				if rw.TS == 0 {
+					zero++
+				}
+				cnt[rw.ID]++
+				if cnt[rw.ID] == 2 {
+					dup++
+				} else if cnt[rw.ID] > 2 {
+					other = true
+				}
+			}
+			if !other {
+				if dup > 0 {
+					sum.Fail("sort_index_route_rows_duplicated_by_fallback_searcher", what+fmt.Sprintf(": %d of the %d rows are second copies of an event (first rows %v)", dup, len(rows), headRows(rows, 6)), c)
+				}
+				if zero > 0 {
+					sum.Fail("sort_index_route_timestamp_zero", what+fmt.Sprintf(": %d of the %d rows have timestamp 0 (first rows %v)", zero, len(rows), headRows(rows, 6)), c)
+				}
+				sum.Count("e2e/sort_index_route/known_defect")
+				if dup > 0 {
+					// limits and pages cannot be judged on a result that holds second copies
+					sum.Eval(sc.Index+"/"+q.Name, len(evs) > 1)
+					continue
+				}
+				// timestamp 0 only: the rows are identified by id, order / limit / paging are judged
+				bad = false
+			}
+		}
 		if bad {
 			cls := "result_row_unknown_or_duplicate"
 			if kind == "page" {
 				cls = pagingClass
+			}
+			if kind == "sortpage" {
+				cls = "sort_paging_missing_or_duplicate"
 			}
 			sum.Fail(cls, what+fmt.Sprintf(": rows %v contain a duplicate or unknown row", rows), c)
 			continue
@@ -1511,11 +1572,21 @@ func judgeScenario(sum *vhlib.Summary, sc scenario, out workerOut, knownClass st
 					break
 				}
 			}
-		case "sort", "sortk_num_asc", "sortk_num_desc", "sortc_n_asc", "sortc_n_desc":
+		case "sort", "sortpage", "sortk_num_asc", "sortk_num_desc", "sortc_n_asc", "sortc_n_desc":
 			parts := strings.Split(q.Name, ":")
 			name := ""
+			evs := evs
+			if q.MinID > 0 {
+				evs = nil
+				for _, e := range byID {
+					if e.ID >= q.MinID {
+						evs = append(evs, e)
+					}
+				}
+				sort.Slice(evs, func(a, b int) bool { return evs[a].ID < evs[b].ID })
+			}
 			limit := len(evs)
-			if kind == "sort" {
+			if kind == "sort" || kind == "sortpage" {
 				name = parts[1]
 				if parts[2] != "all" {
 					limit, _ = strconv.Atoi(parts[3])
@@ -1537,8 +1608,37 @@ func judgeScenario(sum *vhlib.Summary, sc scenario, out workerOut, knownClass st
 			for _, rw := range rows {
 				res = append(res, keyVals(name, byID[rw.ID]))
 			}
+			if kind == "sortpage" {
+				// the order (g, id) is total: the pages concatenate to exactly the first `limit`
+				// events of the full order, each page but the last is full
+				want := append([]event{}, evs...)
+				sort.SliceStable(want, func(x, y int) bool {
+					cmp, _ := oracleLess(eles, keyVals(name, want[x]), keyVals(name, want[y]))
+					return cmp < 0
+				})
+				if limit < len(want) {
+					want = want[:limit]
+				}
+				okp := len(rows) == len(want)
+				at := -1
+				for i := 0; okp && i < len(rows); i++ {
+					if rows[i].ID != want[i].ID {
+						okp, at = false, i
+					}
+				}
+				if !okp {
+					msg := fmt.Sprintf(": %d pages of size %d returned %d rows in total (page sizes %v), the sorted result has %d", len(qr.Pages), q.Size, len(rows), pageSizes(qr.Pages), len(want))
+					if at >= 0 {
+						msg = fmt.Sprintf(": row %d of the concatenated pages is id %d %v, the full order has id %d %v there", at, rows[at].ID, keyVals(name, byID[rows[at].ID]), want[at].ID, keyVals(name, want[at]))
+					}
+					sum.Fail("sort_paging_missing_or_duplicate", what+msg, c)
+				}
+				sum.Eval(sc.Index+"/"+q.Name, len(evs) > 1)
+				sum.Count("e2e/sortpage")
+				continue
+			}
 			judgeSorted(sum, "e2e", eles, all, res, limit, knownClass, what, c)
-			if knownClass == "" && len(*sortTerms) < 400 {
+			if knownClass == "" && len(*sortTerms) < 400 && len(evs) <= 80 {
 				et := make([]string, len(eles))
 				for k, e := range eles {
 					et[k] = e.coq()
@@ -1572,9 +1672,19 @@ func judgeScenario(sum *vhlib.Summary, sc scenario, out workerOut, knownClass st
 				sum.Count("e2e/page_with_timestamp_ties(known stream)")
 			} else {
 				sum.Count("e2e/" + kind)
+				if len(sc.SortCols) > 0 && kind == "sort" {
+					sum.Count(fmt.Sprintf("e2e/sort_index_route/keys=%d", len(sortKeys(strings.Split(q.Name, ":")[1]))))
+				}
 			}
 		}
 	}
+}
+
+func headRows(rows []row, n int) []row {
+	if len(rows) > n {
+		return rows[:n]
+	}
+	return rows
 }
 
 func offsets(rows []row) []int64 {
@@ -1594,8 +1704,10 @@ func pageSizes(p [][]row) []int {
 
 func runE2E(cfg vhlib.Config, sum *vhlib.Summary, r *vhlib.Rng) {
 	n, nk, nc := 90, 12, 6
+	nsx := 14 // sort-index scenarios (half small: drains go to Coq; half big: values larger than the batch quota)
 	if cfg.Thorough() {
 		n, nk, nc = 1500, 100, 50
+		nsx = 160
 	}
 	type job struct {
 		sc    scenario
@@ -1628,6 +1740,10 @@ func runE2E(cfg vhlib.Config, sum *vhlib.Summary, r *vhlib.Rng) {
 		{ID: 3, TS: baseTS + 3, VM: 1000120, V: 1.00012}, {ID: 4, TS: baseTS + 4, VM: 999960, V: 0.99996}}}},
 		Queries: []querySpec{{Name: "sortk_num_asc", Text: "* | sort 10000 num(v)", Size: 100}}}
 	jobs = append([]*job{{sc: fixed, known: clsTolerance}}, jobs...)
+	rx := r.Fork()
+	for i := 0; i < nsx; i++ {
+		jobs = append(jobs, &job{sc: genSortIdxScenario(rx, i, i%2 == 1)})
+	}
 
 	// one worker process per scenario; a worker that does not finish within the cap is
 	// re-run alone once at the end (a hang under parallel load is not reported unconfirmed);
@@ -1709,7 +1825,7 @@ func runE2E(cfg vhlib.Config, sum *vhlib.Summary, r *vhlib.Rng) {
 			jobs[i].out = workerOut{Err: "skipped"}
 		}
 	}
-	var sortTerms []string
+	var sortTerms, drainTerms []string
 	for i, j := range jobs {
 		if j.out.Err == "skipped" || j.out.Err == "timeout" {
 			sum.Count("e2e/skipped_after_timeouts")
@@ -1720,11 +1836,16 @@ func runE2E(cfg vhlib.Config, sum *vhlib.Summary, r *vhlib.Rng) {
 			continue
 		}
 		judgeScenario(sum, j.sc, j.out, j.known, &sortTerms)
+		if len(j.sc.SortCols) > 0 {
+			judgeSrt(sum, j.sc, j.out.Srt, &drainTerms, 120)
+			judgeSearcher(sum, j.sc, j.out)
+		}
 		if i == 2 {
 			sum.Sample(map[string]interface{}{"scenario": j.sc, "results": j.out.Results})
 		}
 	}
 	writeSharded(cfg, sum, "cases_e2e_sort", "list (list (bool * N) * nat * list (list (N * list value)) * list N)", "check_sortcmd cases", sortTerms, 100)
+	writeSharded(cfg, sum, "cases_sortidx_drain", "list drain_case", "check_drain cases", drainTerms, 150)
 }
 
 func main() {
